@@ -279,7 +279,7 @@ def run_sim(ctx, sd, exe, q):
 def run_rv(ctx, sd, exe, q):
     # ---- R3' the staking SC reached the production way: wallets -> real validator SC -> ExecuteOnDestContext -> staking SC
     tr = os.path.join(sd, "trace.ndjson")
-    nt, ln, nk = (30, 60, 6) if q else (800, 80, 6)
+    nt, ln, nk = (20, 60, 6) if q else (800, 80, 6)
     rv = ctx.vh(exe, ["recordv", ctx.seed, nt, ln, nk, tr])
     st = validate(ctx, sd, tr, nk, int(rv.stats.get("events", 0)),
                   "random history through the real validator SC", obs_only=True)
